@@ -29,7 +29,7 @@ LEVEL_NOTE = ('Photometry values from a finite alphabet (fixed + seed-derived); 
 RULE = ("cases: (mode, grid, n, chunk of flag vectors); executions: ~12 Fitter.fit calls per vector (base, 4 junk values, 5 limit variants, flag-4 rewrite), "
         "each compared on every model; non-trivial = distinct (mode, grid, flag vector) inside the non-singular domain that contain an ignored point, a limit or a flag-1 point")
 ASSUMPTIONS = ["finite value alphabets", "singular regressions are outside the quantifier"]
-REQUIRED_CLASSES = ['junk-with-remove-resolved', 'limits-different-confidences', 'reflag-in-place', 'junk-under-0', 'junk-under-9', 'nonpositive-junk-under-9', 'limit-lower-violated', 'limit-upper-violated', 'limit-not-violated',
+REQUIRED_CLASSES = ['integer-typed-photometry', 'limit-exactly-on-model', 'junk-with-remove-resolved', 'limits-different-confidences', 'reflag-in-place', 'junk-under-0', 'junk-under-9', 'nonpositive-junk-under-9', 'limit-lower-violated', 'limit-upper-violated', 'limit-not-violated',
                     'conf0-equals-flag0', 'conf1-violated-1e30', 'flag4-equivalence', 'mode-2d', 'mode-3d', 'singular-counted']
 TIMEOUT = {'quick': 300, 'thorough': 1800}
 
@@ -49,6 +49,7 @@ def setup(tier, seed):
                 vecs = list(itertools.product(fc.FLAGS, repeat=n))
                 for i in range(0, len(vecs), CHUNK):
                     out.append({'mode': mode, 'grid': grid, 'n': n, 'first': i, 'count': min(CHUNK, len(vecs) - i)})
+    out.append({'mode': 'tie', 'grid': 0, 'n': 3, 'first': 0, 'count': 0})
     return {'tier': tier, 'seed': seed, 'cases': out, 'psets': 2 if tier == 'quick' else 3}
 
 
@@ -77,7 +78,45 @@ def _close(a, b, tol):
     return all(np.allclose(x, y, rtol=tol, atol=tol, equal_nan=True) for x, y in zip(a, b))
 
 
+def _exact_tie(ctx, case, rec, d):
+    """A limit that coincides EXACTLY with the fitted model (same float through the same log10): the model is not on the
+    forbidden side, so no penalty.  Distance-dependent mode, one aperture, A_V pinned at 0, d = 1 kpc exactly: the fitted
+    model is the tabulated flux itself."""
+    names = fc.names_for(4)
+    bands = BANDSETS[3]
+    tables = np.array([[[3.0], [7.0], [11.0]], [[5.0], [2.5], [40.0]], [[1.25], [9.0], [0.5]], [[6.0], [6.0], [6.0]]])      # (models, bands, 1 aperture)
+    ap = np.array([500.0])
+    md = fc.build_package(d, 'pkg', {'fmt': 'v1', 'names': names, 'bands': bands, 'apertures': ap, 'tables': tables, 'logd_step': 0.2})
+    fitter = fc.make_fitter(md, bands, 'power', (0.0, 0.0), distance_range_kpc=(1.0, 1.0), memmap=False)
+    for m in range(4):
+        for jl in (1, 2):
+            for kind in (2, 3):
+                for conf in (0.5, 1.0):
+                    fv = [1, 1, 1]
+                    fv[jl] = kind
+                    fl = tables[m, :, 0].copy()            # photometry = model m exactly
+                    er = fl * 0.1
+                    er[jl] = conf
+                    info = fitter.fit(fc.make_source(fv, fl, er))
+                    nm = [str(x).strip() for x in np.asarray(info.model_name)]
+                    chi = float(fc._asf(info.chi2)[nm.index(names[m])])
+                    rec.trans()
+                    rec.ev()
+                    rec.cls('limit-exactly-on-model')
+                    rec.state(('tie', m, jl, kind, conf))
+                    rec.nontriv(('tie', m, jl, kind, conf))
+                    rec.outcome(round(chi, 6))
+                    # fitted points of model m: log10 F - 0.5 (s/F)^2/ln10 vs log10 F  -> chi2 = 2 * (0.05/ ln10 * ln10 ... ) small and finite; no penalty
+                    w, lf, le = fitref.log_transform(fv, fl, er)
+                    expect = float(np.sum(w * (lf - np.log10(fl)) ** 2))
+                    if abs(chi - expect) > 1e-9 * (1 + expect):
+                        rec.violation('limits|penalty-on-exact-tie', {'model': names[m], 'band': jl, 'kind': kind, 'conf': conf},
+                                      {'problem': 'a model lying exactly on the limit was penalised', 'chi2': chi, 'expected': expect, 'penalty': fitref.penalty(conf)})
+
+
 def run_case(ctx, case, rec, d):
+    if case['mode'] == 'tie':
+        return _exact_tie(ctx, case, rec, d)
     seed = ctx['seed']
     n = case['n']
     bands = BANDSETS[n]
@@ -183,6 +222,18 @@ def run_case(ctx, case, rec, d):
                     if not _eq_exact(b_rr, r):
                         rec.violation('ignored|remove-resolved|%s-junk' % ('nonpositive' if junk <= 0 else 'positive'), dict(sub0, junk=junk, junk_err=junk_e),
                                       {'problem': 'with remove_resolved the outputs change when ignored points carry %r' % junk, 'base_chi2': b_rr[2], 'junk_chi2': r[2]})
+            # ---- (a'') whole-number photometry handed over as python ints: a half-integer change under an ignored flag must not matter,
+            # and the fit must equal the one of the same numbers given as floats
+            if ps == 0 and 4 not in fv and n >= 2:
+                fi = np.maximum(np.round(fl * 100.0), 1.0)
+                ei = np.array([float(int(round(e_))) if v_ in (2, 3) else max(round(e_ * 100.0), 1.0) for v_, e_ in zip(fv, er)])
+                r_float = _by_name(fit(fv, fi, ei), names)
+                r_int = _by_name(fitter.fit(fc.make_source(fv, fi, ei, as_int=True)), names)
+                rec.trans(2)
+                rec.ev(len(names))
+                rec.cls('integer-typed-photometry')
+                if not _eq_exact(r_float, r_int):
+                    rec.violation('integer-photometry|differs-from-float', sub0, {'problem': 'the same whole numbers give another fit when passed as ints', 'float_av': r_float[0], 'int_av': r_int[0]})
             # ---- (b) limits
             lim = [j for j, v in enumerate(fv) if v in (2, 3)]
             if lim:
